@@ -121,6 +121,64 @@ def obligations(ctx):
                 return z3.ULT(i, k)
             oblig.guarded(r, E, q, evs, phi, "remove_file reachable with id >= keep_from_log_id")
     out += archive_write(ctx)
+    out += archive_results(ctx)
+    return out
+
+
+def archive_results(ctx):
+    """the archiver reports every log it tried: a failed archive is an Err in the returned vector"""
+    from .flushspec import Builder
+    b = Builder(ctx, "wal-wal_archiver-{impl#0}-archive_logs_up_to.", "WalArchiver::archive_logs_up_to", {})
+    E, q = b.E, ctx.q
+    r = b.mk("B-5", "WalArchiver::archive_logs_up_to: the result of every archive_log call - Ok or Err - is appended to the returned "
+                    "vector before the loop moves on or the function returns (the cleaner skips deletion only if it sees an Err "
+                    "there), and only logs below the cut-off are archived")
+    out = [b.results["B-5"]]
+    if not r:
+        return out
+    arch = oblig.events(E, r"WalArchiver::archive_log$")
+    pushes = [e for e in E.events if re.search(r"Vec::<.*>::push$", e.func) and len(e.args) > 1]
+    nexts = [e for e in E.events if re.search(r"Iterator>::next$", e.func) and e.span and e.span[0].startswith("src/")
+             and not sym.LOGGING_CALLS.search(e.func) and "tracing" not in e.func]
+    if not oblig.need_anchor(r, arch, "WalArchiver::archive_log") or not oblig.need_anchor(r, pushes, "results.push"):
+        return out
+    r.nontrivial = True
+    rets = [reach for (_n, reach, _env) in E.returns]
+    for a in arch:
+        r.anchors.append(f"{a.short}@bb{a.bb}.{a.layer}")
+        mine = [p_ for p_ in pushes if a.site in {sym.describe(p_.args[1])} | set(E.trace(p_.args[1], p_.env, depth=4))]
+        pushed = z3.Or([p_.reach for p_ in mine]) if mine else z3.BoolVal(False)
+        # whatever the outcome, the result is recorded as it is
+        for p_ in mine:
+            dp = E.disc_term(p_.args[1])
+            da = z3.BitVec(f"disc({a.site})", 64)
+            if dp is None:
+                continue
+            res, model = q.check(p_.reach, dp != da, domain=E.domain)
+            r.queries += 1
+            if res == z3.sat:
+                oblig.violated(r, E, q, p_, model, "the value appended for a log does not carry the outcome of its archive_log call")
+                return out
+        goals = [("returns", z3.Or(rets))] if rets else []
+        nxt = [e for e in nexts if e.layer == a.layer + 1]
+        if nxt:
+            goals.append(("moves on to the next directory entry", nxt[0].reach))
+        for what, g in goals:
+            for outcome, cond in (("failed", z3.BitVec(f"disc({a.site})", 64) == 1), ("succeeded", z3.BitVec(f"disc({a.site})", 64) == 0)):
+                res, model = q.check(a.reach, cond, g, z3.Not(pushed), domain=E.domain)
+                r.queries += 1
+                if res == z3.sat:
+                    oblig.violated(r, E, q, a, model, f"archive_logs_up_to {what} although the result of an archive_log call that {outcome} "
+                                                      "was not appended: the cleaner sees no failure and deletes the logs")
+                    return out
+        i = E.var_term(a.env, "id")
+        k = E.var_term(a.env, "keep_from_log_id")
+        if i is not None and k is not None:
+            res, model = q.check(a.reach, z3.UGE(i, k), domain=E.domain)
+            r.queries += 1
+            if res == z3.sat:
+                oblig.violated(r, E, q, a, model, "a log at or above the cut-off is archived")
+                return out
     return out
 
 
